@@ -7,7 +7,7 @@ spec fn biclique_arc(m: int, n: int, a: int, b: int) -> bool {
 }
 
 impl EdgeList {
-    /*@fn impl=EdgeList trait=Biclique name=biclique loopify=BTreeSet props=C14,C13
+    /*@fn impl=EdgeList trait=Biclique name=biclique loopify=BTreeSet noisolation props=C14,C13
     ensures
         m >= 1 && n >= 1 && m + n <= usize::MAX,
         r.wf(),
@@ -54,7 +54,7 @@ impl EdgeList {
     // `complete_arc` and the contract of `trivial` come from units/inc/edge_list_ops.inc.rs (imported by the unit).
     // E14: `(0..order).flat_map(|u| (0..u).chain((u + 1)..order).map(move |v| (u, v))).collect()` becomes two nested accumulator
     // loops; the inner one runs over `vx_chain(0..u, (u + 1)..order).map(closure)` (E12 wrapper, prelude/edge_list_more_std.rs).
-    /*@fn impl=EdgeList trait=Complete name=complete loopify=BTreeSet wrap=chain props=C14,C13
+    /*@fn impl=EdgeList trait=Complete name=complete loopify=BTreeSet noisolation wrap=chain props=C14,C13
     ensures
         order >= 1,
         r.wf(),
